@@ -4,7 +4,7 @@ import Gen.WsGen
 /-!
 # C11 — model of `WebSocket::send`, `WebSocket::receive` and the server handshake (src/WebSocket.cpp)
 
-Transcribed from the code (after the repairs 732c352, 71ac374, 7971835):
+Transcribed from the code (after the repairs 732c352, 71ac374, 7971835, d2a7e85, d352fb1):
 
 * `Rng` — `Random::getLong/get` (xoshiro256**, src/util.cpp), because the client role draws its mask
   keys from `_random`;
@@ -12,8 +12,8 @@ Transcribed from the code (after the repairs 732c352, 71ac374, 7971835):
   `swapBytes(mask)` and the payload XORed *word-wise* over `len/4 + 1` 32-bit words of a buffer whose
   capacity was raised by `resize(+4); resize(-4)`;
 * `parseHeader`, `recvLoop` — `receive()`: two header bytes, 16/64-bit lengths (64-bit value read as a
-  signed `Long`, rejected when `< 0` or `> 0x7ffffff0`, then cast to `int`), mask, payload, word-wise
-  unmasking, opcode switch, `fin && (opcode < 8 || !partial)`;
+  signed `Long`, rejected when `< 0` or `> 0x7ffffff0`, then cast to `int`), mask, the limit on the
+  reassembled message, the payload read in pieces of at most 64 KB into a growing buffer, word-wise unmasking, opcode switch, `fin && (opcode < 8 || !partial)`;
 * `serverResponse` — `WebSocketServer::process`: accept key = base64(SHA-1(key ‖ GUID)).
 
 The socket is a byte list followed by end-of-stream (the harness writes the whole stream and shuts the
@@ -205,8 +205,25 @@ inductive Frame where
   | ok (fin : Bool) (opcode : Nat) (buffer : List UInt8) (rest : List UInt8)
 deriving Repr, DecidableEq
 
-/-- `_socket >> b0 >> mlen; if (closed()) return …;` header, payload, unmasking -/
-def readFrame (inp : List UInt8) : Frame :=
+/-- The payload loop `for (got = 0; got < len;) { chunk = min(len - got, recvChunk); buffer.resize(got + chunk);
+    if (read(buffer + got, chunk) != chunk) close; got += chunk; }` with `avail` bytes left before the end of
+    the stream.  Returns whether all `len` bytes arrived and the largest length ever passed to `resize`
+    (the memory the frame made the library ask for).  The socket delivers the bytes in order, so on
+    success the buffer is the next `len` bytes of the stream.  `fuel` = `len + 1` is never exhausted
+    (`C11.payload_loop_spec`). -/
+def readPayload : Nat → Nat → Nat → Nat → Nat → Bool × Nat
+  | 0, _, _, _, peak => (false, peak)
+  | fuel + 1, len, got, avail, peak =>
+    if got < len then
+      let chunk := if len - got < recvChunk then len - got else recvChunk
+      let peak := max peak (got + chunk)
+      if avail < got + chunk then (false, peak)
+      else readPayload fuel len (got + chunk) avail peak
+    else (true, peak)
+
+/-- `_socket >> b0 >> mlen; if (closed()) return …;` header, message-size check, payload, unmasking.
+    `msgLen` = length of the fragments already accumulated in `msg`. -/
+def readFrame (msgLen : Nat) (inp : List UInt8) : Frame :=
   match inp with
   | [] => .close
   | [_] => .close                       -- `mlen` not read: socket error, `closed()` is true
@@ -216,7 +233,9 @@ def readFrame (inp : List UInt8) : Frame :=
     | .close => .close
     | .ok fin opcode masked len mask rest =>
       let n := len.toNat
-      if rest.length < n then .close    -- the stream ends inside the payload
+      -- `opcode < 3 && len > 0x7ffffff0 - msg.length()`: the reassembled message would not fit an array
+      if opcode < recvDataOps ∧ len > (recvMaxMsg : Int) - (msgLen : Int) then .close
+      else if (readPayload (n + 1) n 0 rest.length 0).1 = false then .close    -- the stream ends inside the payload
       else
         let payload := rest.take n
         match (if masked then maskBuffer mask payload zeroSlack else some payload) with
@@ -229,7 +248,7 @@ def recvLoop : Nat → Conn → List UInt8 → Bool → List UInt8 × Conn
   | 0, c, msg, _ => (msg, c)
   | fuel + 1, c, msg, partialMsg =>
     if c.isClosed then (msg, { c with closed := true })
-    else match readFrame c.inp with
+    else match readFrame msg.length c.inp with
     | .close => (msg, { c with closed := true, inp := [] })
     | .fault => (msg, { c with closed := true, fault := true })
     | .ok fin opcode buffer rest =>
